@@ -56,7 +56,17 @@ def seed(version, kind, pos, variant):
     gen83 = is83(root)
 
     def pick(lst):
-        return lst[pos % len(lst)] if lst else None
+        if not lst:
+            return None
+        if pos % 5 == 0 and kind != "deprecated_from_bad":
+            # one case in five sits on an entry that the released schema already marks as deprecated (or below one)
+            def deprecated(item):
+                el = item[0] if isinstance(item, tuple) else item
+                return bool(gen_schema.attr_elems(el, "deprecatedFrom"))
+            dep = [x for x in lst if deprecated(x)]
+            if dep:
+                return dep[(pos // 5) % len(dep)]
+        return lst[pos % len(lst)]
 
     if kind == "duplicate_node":
         e, long, _ = pick(plain)
